@@ -71,6 +71,9 @@ func vShapeRel(capacity, pad int, withFree bool, emptied int) *vWorld {
 		p3 := W.create([]int{cA}, Entity{}, Entity{})
 		W.create([]int{cR1, cA}, W.e[p3].h, Entity{})
 	}
+	// a populated zero-target table: bulk moves (target death, batch retargeting) then arrive
+	// in a destination that already holds rows
+	zc := W.create([]int{cR1, cA}, Entity{}, Entity{})
 	for i := 0; i < W.n; i++ {
 		if W.e[i].alive {
 			W.havocValues(i)
@@ -84,6 +87,8 @@ func vShapeRel(capacity, pad int, withFree bool, emptied int) *vWorld {
 		W.removeEntity(6) // the only child in (R1->p1, R2->zero)
 	case 3:
 		W.removeEntity(5) // the only child in (R1->p0, R2->p1)
+	case 4:
+		W.removeEntity(zc) // the only child in (R1->zero, A): an emptied table without a target
 	}
 	return W
 }
@@ -594,7 +599,7 @@ func vStepPlainV(op int, capacity, pad int, nv int) {
 }
 
 // variants: (free table + recycled parent id, emptied relation table)
-var vRelVariants = [5][2]int{{1, 0}, {0, 1}, {1, 2}, {0, 0}, {1, 3}}
+var vRelVariants = [6][2]int{{1, 0}, {0, 1}, {1, 2}, {0, 0}, {1, 3}, {0, 4}}
 
 func vStepRel(op int, capacity, pad int) { vStepRelV(op, capacity, pad, 3) }
 func vStepRelV(op int, capacity, pad int, nv int) {
@@ -637,7 +642,7 @@ func VerifC04_RelRemoveEntity() { vRun(1, func() { vStepRel(5, 1, 60) }) }
 
 // C15: Shrink is invisible
 func VerifC15_PlainShrink() { vRun(1, func() { vStepPlain(8, 2, 60) }) }
-func VerifC15_RelShrink()   { vRun(1, func() { vStepRel(8, 2, 60) }) }
+func VerifC15_RelShrink()   { vRun(1, func() { vStepRelV(8, 2, 60, 6) }) }
 
 // C10: every rejected call panics and leaves the world unchanged
 func VerifC10_PlainNew()          { vRun(2, func() { vStepPlain(0, 1, 60) }) }
